@@ -451,6 +451,7 @@ class Explorer:
         self.plugin = plugin
         self.pairs = set(pairs)         # designated (keyA, keyB) relation pairs
         self.pair_keys = {k for p in self.pairs for k in p}
+        self.sticky = {k for k in self.assume if k[0] == "rel"}     # assumed relations describe the value itself: never invalidated
         self.cyclic = self.info.cyclic_phis()
         self.live = self.info.live_after_phis()
         self.rets = []                  # (state, ret inst, AV of returned value)
@@ -1124,7 +1125,7 @@ class Explorer:
                         # re-executing the definition invalidates an old refinement
                         del s.env[k]
                     if self.pairs and k in self.pair_keys:
-                        for rk in [x for x in s.env if x[0] == "rel" and (x[1] == k or x[2] == k)]:
+                        for rk in [x for x in s.env if x[0] == "rel" and (x[1] == k or x[2] == k) and x not in self.sticky]:
                             del s.env[rk]
                     if self.plugin is not None and i is not b.term:
                         r = self.plugin.on_inst(self, s, i)
